@@ -308,6 +308,7 @@ func vfC03Rows() []vfC03Row {
 						add("omit-certificate-and-verify", "reject")
 					}
 					if kind == "ecdsa" {
+						add("key-usage-of-the-other-role", exp("reject", "accept"))
 						add("expires-between-connections", exp("reject", "accept"))
 						add("victim-chain-forged-digestless-scheme", "reject")
 						add("own-selfsigned-leaf-plus-victim-cert", exp("reject", "accept"))
@@ -334,9 +335,9 @@ func vfC03Rows() []vfC03Row {
 				case RequireAnyClientCert:
 					table = map[string]string{"none": "reject", "valid": "accept", "unknown-ca": "accept", "expired": "accept", "stolen-chain-own-key": "reject", "omit-certificate-verify": "reject", "omit-certificate": "reject", "victim-chain-forged-digestless-scheme": "reject"}
 				case VerifyClientCertIfGiven:
-					table = map[string]string{"none": "accept", "valid": "accept", "unknown-ca": "reject", "expired": "reject", "stolen-chain-own-key": "reject", "omit-certificate-verify": "reject", "own-selfsigned-leaf-plus-victim-cert": "reject", "victim-chain-forged-digestless-scheme": "reject", "expires-between-connections": "reject"}
+					table = map[string]string{"none": "accept", "valid": "accept", "unknown-ca": "reject", "expired": "reject", "stolen-chain-own-key": "reject", "omit-certificate-verify": "reject", "own-selfsigned-leaf-plus-victim-cert": "reject", "victim-chain-forged-digestless-scheme": "reject", "expires-between-connections": "reject", "key-usage-of-the-other-role": "reject"}
 				case RequireAndVerifyClientCert:
-					table = map[string]string{"none": "reject", "valid": "accept", "unknown-ca": "reject", "expired": "reject", "stolen-chain-own-key": "reject", "omit-certificate-verify": "reject", "omit-certificate": "reject", "own-selfsigned-leaf-plus-victim-cert": "reject", "victim-chain-forged-digestless-scheme": "reject", "expires-between-connections": "reject"}
+					table = map[string]string{"none": "reject", "valid": "accept", "unknown-ca": "reject", "expired": "reject", "stolen-chain-own-key": "reject", "omit-certificate-verify": "reject", "omit-certificate": "reject", "own-selfsigned-leaf-plus-victim-cert": "reject", "victim-chain-forged-digestless-scheme": "reject", "expires-between-connections": "reject", "key-usage-of-the-other-role": "reject"}
 				}
 				for dev, e := range table {
 					ks := []string{"ecdsa"}
@@ -358,7 +359,7 @@ func vfC03Rows() []vfC03Row {
 	}
 	// An application callback that has no objection must not replace the library's own verdict: every row whose
 	// outcome rests on chain verification is repeated with a permissive VerifyPeerCertificate on the honest side.
-	chainDevs := map[string]bool{"control": true, "valid": true, "unknown-ca": true, "wrong-name": true, "expired": true, "expires-between-connections": true,
+	chainDevs := map[string]bool{"control": true, "valid": true, "unknown-ca": true, "wrong-name": true, "expired": true, "expires-between-connections": true, "key-usage-of-the-other-role": true,
 		"own-selfsigned-leaf-plus-victim-cert": true, "ip-name-cert-for-other-name": true, "stolen-chain-own-key": true}
 	for _, r := range append([]vfC03Row(nil), rows...) {
 		if r.PSK || !chainDevs[r.Dev] || r.Kind != "ecdsa" || !r.Verify || r.Variant != "plain" {
@@ -436,6 +437,8 @@ func vfC03Run(t *testing.T, res *vfResult, row vfC03Row) {
 				serverCert = pki.Leaf("ecdsa", "server-expired")
 			case "expires-between-connections":
 				serverCert = pki.Leaf("ecdsa", "server-shortlived")
+			case "key-usage-of-the-other-role":
+				serverCert = pki.Leaf("ecdsa", "server-clientauth-eku")
 			case "stolen-chain-own-key":
 				serverCert = vfStolenChain(serverCert)
 			case "victim-chain-forged-digestless-scheme":
@@ -462,6 +465,8 @@ func vfC03Run(t *testing.T, res *vfResult, row vfC03Row) {
 				clientCert = pki.Leaf("ecdsa", "client-expired")
 			case "expires-between-connections":
 				clientCert = pki.Leaf("ecdsa", "client-shortlived")
+			case "key-usage-of-the-other-role":
+				clientCert = pki.Leaf("ecdsa", "client-serverauth-eku")
 			case "stolen-chain-own-key":
 				clientCert = vfStolenChain(clientCert)
 			case "victim-chain-forged-digestless-scheme":
